@@ -270,7 +270,7 @@ func runT[T constraints.Float](op string, t *tokens, margin float64) string {
 // average of its vertices and of three consecutive vertices, and the midpoints of its edges pushed to both sides by
 // 1.5 and by 4 margins — so that area the result has on its own (where neither operand suggested a sample point) is
 // judged too.  They are only candidates: the Lean oracle applies the exact margin test and judges them.  At most
-// about 80 points per call; printed as exact float64 bit patterns after ` X <count>`.
+// about 60 points per call; printed as exact float64 bit patterns after ` X <count>`.
 func resultPoints[T constraints.Float](r poly.Polygon[T], margin float64) string {
 	if margin <= 0 {
 		return ""
@@ -282,9 +282,13 @@ func resultPoints[T constraints.Float](r poly.Polygon[T], margin float64) string
 	if edges == 0 {
 		return ""
 	}
-	stride := edges/16 + 1
+	stride := edges/10 + 1
 	var pts []float64
+	// snap to a grid of about margin/64 (a power of two): short dyadics keep the exact arithmetic of the oracle cheap
+	_, e := math.Frexp(margin)
+	grid := math.Ldexp(1, e-7)
 	add := func(x, y float64) {
+		x, y = math.Round(x/grid)*grid, math.Round(y/grid)*grid
 		if !math.IsNaN(x) && !math.IsInf(x, 0) && !math.IsNaN(y) && !math.IsInf(y, 0) {
 			pts = append(pts, x, y)
 		}
